@@ -4,6 +4,12 @@
 mod report;
 mod util;
 mod c13;
+mod ops;
+mod model;
+mod observe;
+mod hist;
+mod c01;
+mod c03;
 
 use report::{Coverage, Reporter, Tier};
 
@@ -45,6 +51,9 @@ fn main() {
         let case = &doc["case"];
         match prop.as_str() {
             "C13" => c13::replay(&rep, case),
+            "C01" => c01::replay(&rep, case, "C01"),
+            "C02" => c01::replay(&rep, case, "C02"),
+            "C03" => c03::replay(&rep, case),
             _ => usage(),
         }
         let code = rep.finish(Coverage::default());
@@ -52,6 +61,9 @@ fn main() {
     }
     let cov = match prop.as_str() {
         "C13" => c13::run(&rep),
+        "C01" => c01::run_c01(&rep),
+        "C02" => c01::run_c02(&rep),
+        "C03" => c03::run(&rep),
         _ => usage(),
     };
     let code = rep.finish(cov);
